@@ -6,6 +6,7 @@ export GOFLAGS=-mod=mod GOPROXY=off
 mkdir -p bin evidence replays
 (cd engine && GOTOOLCHAIN=local GOSUMDB=off go build -o ../bin/gosym ./cmd/gosym)
 z3-new --version
+./engine/selftest.sh
 # warm: compile the harness packages' test binaries once (native replay path)
 python3 - <<'PY'
 import json, os, subprocess, sys
